@@ -115,6 +115,35 @@ func (p *Program) CallersOf(fn *ssa.Function) []callSite {
 	return out
 }
 
+// siteOwners attributes a site found in fn to rule anchors: fn itself when it is a function of the
+// reference tree, otherwise (an extracted helper) the known functions that call it, transitively.
+func (p *Program) siteOwners(fn *ssa.Function) []string {
+	seen := map[*ssa.Function]bool{}
+	out := map[string]bool{}
+	var rec func(f *ssa.Function)
+	rec = func(f *ssa.Function) {
+		if seen[f] {
+			return
+		}
+		seen[f] = true
+		name := p.FuncName(f)
+		if knownFuncs[name] || f.Parent() != nil {
+			out[name] = true
+			return
+		}
+		callers := p.CallersOf(f)
+		if len(callers) == 0 {
+			out[name] = true
+			return
+		}
+		for _, cs := range callers {
+			rec(cs.Fn)
+		}
+	}
+	rec(fn)
+	return sortedKeys(out)
+}
+
 // fieldOf resolves the field accessed by a FieldAddr / Field instruction.
 func fieldOf(v ssa.Value) *types.Var {
 	switch x := v.(type) {
